@@ -257,7 +257,7 @@ def main(prop: str, tier: str) -> int:
             info.append({'constants': c, 'sessions': len(behs), 'tlc_states': r.distinct})
             if behs:
                 samples.append(json.loads(behs[len(behs) // 2]))
-            for out in pool.imap_unordered(_chunk, list(common.chunked(behs, 100))):
+            for out in common.gmap(pool, rep, _chunk, list(common.chunked(behs, 100))):
                 for kind, msg, b in out:
                     if kind == 'machinery':
                         rep.machinery_error(msg)
